@@ -540,9 +540,9 @@ def install(pid, rec):
                 return REC.check(cond, 'ambient:' + clause, key_suffix.split('after-')[0] + 'at-test-end', f'{NODE[0]}: {what}', detail, residual, globals()['case']())
 
             def exception(self, clause, e, what=None, case=None):
-                if type(e).__name__ in ('TypeError', 'AttributeError', 'KeyError', 'IndexError', 'NameError', 'UnboundLocalError', 'ValueError'):
-                    REC.exception('ambient:' + clause, e, what=f'{NODE[0]}: {what or "reading the views of a live stream raised"}', case=globals()['case']())
-                else: REC.refuse(f'ambient: reading the views raised {type(e).__name__} (not judged)')
+                if isinstance(e, RuntimeError) and 'molar volume method' in str(e) and 'is not valid at' in str(e):
+                    REC.refuse('ambient: a molar volume model is outside its domain at the state of a live stream (not judged)')
+                else: REC.exception('ambient:' + clause, e, what=f'{NODE[0]}: {what or "reading the views of a live stream raised"}', case=globals()['case']())
 
         def scan():
             q = Quiet()
@@ -619,14 +619,17 @@ def install(pid, rec):
                 for p in PROPS:
                     with warnings.catch_warnings():
                         warnings.simplefilter('ignore')
+                        # the live stream is read FIRST: the twin shares its package, reading the twin first would prime any package-level state just before the judged read
+                        try: a = c14.value_of(s, p); e = None
+                        except Exception as e_: a = None; e = e_
                         try: b = c14.value_of(tw, p)
-                        except Exception: continue
-                        try: a = c14.value_of(s, p)
-                        except Exception as e:
+                        except Exception:
+                            REC.hit('ambient:fresh-twin:no-value-on-twin'); continue
+                        if e is not None:
                             REC.check(False, 'ambient:fresh-twin', p + '/raises-on-live-stream-only', f'{NODE[0]}: live {type(s).__name__} {s.ID}: {p} raised {type(e).__name__}: {str(e)[:80]} but a fresh stream in the same state gives {b!r}', case=case()); continue
                     if isinstance(b, float) and b != b: continue
                     n += 1
-                    REC.check(c14.equal(a, b), 'ambient:fresh-twin', p, f'{NODE[0]}: live {type(s).__name__} {s.ID}: {p} = {a!r} but a fresh stream in the same state gives {b!r}', case=case())
+                    REC.check(c14.equal(a, b), 'ambient:fresh-twin', p, f'{NODE[0]}: live {type(s).__name__} {s.ID}: {p} = {a!r} but a fresh stream in the same state gives {b!r}', residual=c14.residual(a, b), case=case())
                 if n: REC.mark_nontrivial(f'{NODE[0]}:{len(REC.nontrivial)}'); REC.hit('ambient:stream-at-test-end')
 
     # ------------------------------------------------------------------ C16 activity-coefficient calls have no side effects
